@@ -84,13 +84,16 @@ OnEncClean(ev) ==
 SameCfg(ev) == ev.ibe >= 0 /\ ev.ibe = ev.be /\ ev.ik = ev.k /\ ev.im = ev.m /\ ev.ihd = ev.hd
 EffIdx(ev) == IF ev.nfrag <= 0 THEN <<>> ELSE IF ev.nfrag <= Len(ev.idx) THEN SubSeq(ev.idx, 1, ev.nfrag) ELSE ev.idx
 MissingIn(ev) == (0..(ev.k + ev.m - 1)) \ {EffIdx(ev)[i] : i \in 1..Len(EffIdx(ev))}
+\* the null backend is a stub that reports success without computing anything: with a data fragment missing its
+\* "decode" cannot return the data, by design (DESIGN Appendix E, 21 and 26)
+NullStub(ev) == ev.be = 0 /\ MissingIn(ev) \cap (0..(ev.k - 1)) # {}
 OnDecode(ev) ==
    LET tol == TolBy(ev.be, ev.k, ev.m, ev.hd, MissingIn(ev))
        cls == ExpectDecode(st, ev.x, ev.nullmask, ev.flc, ev.nfrag, ev.nfrag, SameCfg(ev), tol, Fired(ev))
        excused == ev.rc < 0 /\ ExcusedBy(ev.be, ev.k, ev.m, MissingIn(ev))
        s2 == DecodeEffect(st, ev.x, ev.U, ev.rc)
    IN [v |-> (IF excused THEN {} ELSE ClsU(ev, cls, ev.rc, "C13/C01 decode: argument class or tolerated erasure set judged wrongly"))
-             \cup (IF ev.rc = 0 /\ SameCfg(ev) /\ ev.match # 1 THEN {"C02 success with wrong bytes"} ELSE {})
+             \cup (IF ev.rc = 0 /\ SameCfg(ev) /\ ~NullStub(ev) /\ ev.match # 1 THEN {"C02 success with wrong bytes"} ELSE {})
              \cup (IF ev.rc = 0 /\ Delta(ev) <= 0 THEN {"C16 decode handed out nothing"} ELSE {})
              \cup Common(ev, "C13"),
        s |-> s2, e |-> encD, d |-> IF ev.rc = 0 THEN [u \in DOMAIN decD \cup {ev.U} |-> IF u = ev.U THEN Delta(ev) ELSE decD[u]] ELSE decD]
@@ -108,7 +111,7 @@ OnRecon(ev) ==
        cls == ExpectRecon(st, ev.x, ev.nullmask, ev.flc, ev.U, ev.nfrag, ev.nfrag, SameCfg(ev), tol, Fired(ev))
        excused == ev.rc < 0 /\ ExcusedBy(ev.be, ev.k, ev.m, MissingIn(ev))
    IN [v |-> (IF excused THEN {} ELSE ClsU(ev, cls, ev.rc, "C13/C03 reconstruct: argument class or tolerated erasure set judged wrongly"))
-             \cup (IF ev.rc = 0 /\ SameCfg(ev) /\ (IF Has(ev, "samep") /\ ev.ict # ev.ct THEN ev.samep # 1 ELSE ev.same # 1)
+             \cup (IF ev.rc = 0 /\ SameCfg(ev) /\ ~NullStub(ev) /\ (IF Has(ev, "samep") /\ ev.ict # ev.ct THEN ev.samep # 1 ELSE ev.same # 1)
                    THEN {"C02 reconstruct success with wrong bytes"} ELSE {})
              \cup Common(ev, "C13") \cup NoDelta(ev),
        s |-> st, e |-> encD, d |-> decD]
